@@ -52,6 +52,53 @@ ALL_PAIRS = [(s, t) for s in range(18, 26) for t in range(18, 26)]
 # enumeration
 # ------------------------------------------------------------------------------------------------------------
 
+
+def _wf_scoped(model):
+    """vf.wf with the name rule of ONNX itself (what onnx.checker and ORT implement): a name must be unique within its
+    graph, and a subgraph must not redefine a name that is VISIBLE where its node stands (inputs, initializers and outputs
+    of preceding nodes of the enclosing graphs).  vf.wf's global single-assignment rule also rejects a name used inside
+    a subgraph and again LATER in the enclosing graph; the statement of C10 asks for a checker-valid, equivalent model,
+    not for that (a thorough-tier false alarm: adapter constants named val_5/val_6 inside an If branch, the outer graph
+    defining val_5/val_6 after the If; checker and ORT accept the model and the results are equal)."""
+    out = [p for p in wf.check_model(model)
+           if "defined more than once" not in p and "redefines an outer name" not in p and "redefines an existing name" not in p]
+
+    def walk(g, visible, path):
+        local = set()
+
+        def define(n, what):
+            if not n:
+                return
+            if n in local:
+                out.append(f"{path}: value '{n}' defined twice in one graph ({what})")
+            elif n in visible:
+                out.append(f"{path}: value '{n}' redefines a name visible from the enclosing graph ({what})")
+            local.add(n)
+        in_names = {i.name for i in g.input}
+        for i in g.input:
+            define(i.name, "input")
+        for t in g.initializer:
+            if t.name not in in_names:
+                define(t.name, "initializer")
+        for n in g.node:
+            for a in n.attribute:
+                if a.type == onnx.AttributeProto.GRAPH:
+                    walk(a.g, visible | local, f"{path}/{n.op_type}.{a.name}")
+                elif a.type == onnx.AttributeProto.GRAPHS:
+                    for j, sg in enumerate(a.graphs):
+                        walk(sg, visible | local, f"{path}/{n.op_type}.{a.name}[{j}]")
+            for o in n.output:
+                define(o, "node output")
+    walk(model.graph, set(), "graph")
+    for f in model.functions:
+        fg = onnx.GraphProto()
+        fg.node.extend(f.node)
+        for nm in f.input:
+            fg.input.add().name = nm
+        walk(fg, set(), f"function {f.name}")
+    return out
+
+
 def _mk_driver(pairs):
     def driver(ch):
         op = ch.all("op", M.FOCUS_OPS)
@@ -362,7 +409,7 @@ def _original(spec):
     again = ir.to_proto(ir.from_proto(base)).SerializeToString()
     info = {"proto": base, "bytes": bb, "feeds": feeds, "fixpoint": again == bb}
     info["checker"] = _checker(base)
-    info["wf"] = wf.check_model(base)
+    info["wf"] = _wf_scoped(base)
     o, oerr = _run_ort(bb, feeds)
     r, rerr = _run_ref(base, feeds)
     info["ort"], info["ort_err"], info["ref"], info["ref_err"] = o, oerr, r, rerr
@@ -460,7 +507,7 @@ def _judge_result(orig, after, t, op, s):
                    and op == "GroupNormalization" and t < 21)
         if not excused:
             out.append(("checker", {"error": ck, "original_checker": orig["checker"]}))
-    problems = wf.check_model(after)
+    problems = _wf_scoped(after)
     if problems and not orig["wf"]:
         out.append(("wf", {"problems": problems[:5]}))
     base = orig["proto"]
